@@ -77,7 +77,7 @@ func main() {
 	run.Rule = "gen: key ring of 1-3 keys (P-256; sometimes ed25519 = no key id, P-224 = no signature algorithm), " +
 		"1-3 TRCs with a root rotation, latest TRC valid / in grace (predecessor present, missing or expired) / expired / " +
 		"future / with a grace period that outlasts its validity, 0-6 chains per case (old, new or foreign root; NotAfter " +
-		"from a small set so that ties occur; expired, future, other ISD-AS, restricted usages, corrupted), optional " +
+		"from a small set so that ties occur, varying NotBefore; pairs of a later-expiring non-verifying and an earlier-expiring verifying chain for one key in both row orders; expired, future, other ISD-AS, restricted usages, corrupted), optional " +
 		"ExtKeyUsage filter; every signer then signs and the message is verified with a Verifier bound to its ISD-AS and " +
 		"to another one; sign: Signer.validate on and around the expiry; non-trivial = Generate reaches bestForKey"
 	rng := vgen.NewRand(run.Seed)
@@ -132,6 +132,7 @@ func genCase(run *vgen.Run, r *vgen.Rand, idx int) {
 	}
 	type chainSpec struct {
 		key, rootIdx, state, na, mut int
+		nbOff                       int // hours subtracted from the default NotBefore (varies the DB row order)
 		ia                          string
 	}
 	nChains := r.Range(0, 6)
@@ -165,7 +166,23 @@ func genCase(run *vgen.Run, r *vgen.Rand, idx int) {
 		if r.Chance(1, 6) {
 			cs.mut = r.Range(1, 4)
 		}
+		cs.nbOff = r.Intn(6) * 24
 		chains[j] = cs
+	}
+	// a later-expiring chain that does not verify against the TRC being tried next to an
+	// earlier-expiring one that does, for the same key, in both DB row orders and insertion orders
+	if r.Chance(1, 3) {
+		badRoot := vgen.Pick(r, 1-latestRoot, 2)
+		good := chainSpec{key: 0, rootIdx: latestRoot, na: vgen.Pick(r, 3, 24, 48), ia: iaAS, nbOff: r.Intn(6) * 24}
+		bad := chainSpec{key: 0, rootIdx: badRoot, na: vgen.Pick(r, 72, 24*20), ia: iaAS, nbOff: r.Intn(6) * 24}
+		if r.Bool() {
+			bad.nbOff, good.nbOff = 24*7, 0 // the non-verifying chain sorts first by NotBefore
+		}
+		if r.Bool() {
+			chains = append(chains, good, bad)
+		} else {
+			chains = append([]chainSpec{bad, good}, chains...)
+		}
 	}
 	eku := []int{0, 0, 0, 1, 2, 8}[r.Intn(6)]
 	if !run.Want() {
@@ -277,7 +294,7 @@ func genCase(run *vgen.Run, r *vgen.Rand, idx int) {
 		if k.Pub.(*ecdsa.PublicKey).Curve == elliptic.P224() {
 			continue
 		}
-		nb, na := h(-24*10), h(cs.na)
+		nb, na := h(-24*10-cs.nbOff), h(cs.na)
 		switch cs.state {
 		case 1:
 			nb, na = h(-24*10), h(-3)
